@@ -10,6 +10,8 @@
 -/
 import Rsdns.Lemmas.Reader
 import Rsdns.Lemmas.ReaderSafe
+import Rsdns.Lemmas.RecordSetSafe
+import Rsdns.Lemmas.IterSafe
 import Rsdns.Model.RecordSet
 
 set_option linter.unusedVariables false
@@ -94,6 +96,18 @@ example (msg : Bytes) (r : Reader) (p : Option Marker) (k : HKind) (n : HName) (
     (h : (r.step msg (.recordHeader k)).1 = .ok (.hdr n m)) :
     Conforms msg r p [.recordHeader k, .nameRefAt m, .data t m] := by
   simp only [Conforms, h, C09.nextPend, Permitted, and_true, true_and]
+
+/-- **`RecordSet::<D>::from_msg`, every byte string, every record type:** a record set or an error -/
+theorem rrset_safe (t : RType) (msg : Bytes) : (fromMsg t msg).safe := fromMsg_safe t msg
+
+/-- **the iterator API, every byte string:** `MessageIterator::new`, and on the iterator it returns
+    `questions()` and `records()` drained to the end (an `Err` item is an item, not a crash) and
+    `question()` -/
+theorem iter_safe (msg : Bytes) :
+    (MsgIter.new msg).safe ∧ ∀ mi, MsgIter.new msg = .ok mi →
+      (mi.questions msg).safe ∧ (mi.question msg).safe ∧ (mi.records msg).safe :=
+  ⟨(MsgIter.new_safe msg).1, fun mi h => ⟨MsgIter.questions_safe msg mi, MsgIter.question_safe msg mi,
+    MsgIter.records_safe msg mi h⟩⟩
 
 /-- messages longer than 65535 bytes are refused by the cursor-style reader, nothing else is -/
 theorem reader_new_total (msg : Bytes) :
